@@ -117,6 +117,11 @@ impl SwiftField for Field57B {
         }
 
         // Check for location
+        if lines.len() > current_idx + 1 {
+            return Err(ParseError::InvalidFormat {
+                message: "Field 57B has more lines than [party identifier] + location".to_string(),
+            });
+        }
         if current_idx < lines.len() {
             let loc = lines[current_idx];
             if loc.len() > 35 {
